@@ -728,6 +728,27 @@ func runC05(h *H) {
 		}
 	}
 
+	// mixed payloads: mostly incompressible with a short compressible stretch at the end, in the middle or at the start (a
+	// block of opaque blobs whose last column is small and constant): where an encoder's output-size estimate is tight
+	for i := 0; i < 48; i++ {
+		n := []int{4096, 20000, 700, 65536}[i%4]
+		p := make([]byte, n)
+		r.Read(p)
+		z := 16 + r.Intn(80)
+		var q []byte
+		switch i % 3 {
+		case 0:
+			q = append(p, make([]byte, z)...)
+		case 1:
+			q = append(append(append([]byte{}, p[:n/2]...), make([]byte, z)...), p[n/2:]...)
+		default:
+			q = append(make([]byte, z), p...)
+		}
+		for k, sp := range []c05Spec{{compress.LZ4, 0}, {compress.LZ4HC, 0}, {compress.LZ4HC, 1}, {compress.LZ4HC, 12}, {compress.ZSTD, 0}} {
+			c05Big(h, sp, q, i+k)
+		}
+	}
+
 	// the client reading compressed Data blocks from a scripted server (query.go re-export)
 	c05Client(h)
 
